@@ -3,7 +3,9 @@ package main
 import (
 	"fmt"
 	"go/ast"
+	"go/token"
 	"go/types"
+	"strconv"
 	"strings"
 )
 
@@ -355,6 +357,30 @@ func (ev *Ev) specCall(x *ast.CallExpr) Value {
 			conj = append(conj, fmt.Sprintf("(forall ((i Int)) (=> (and (<= 0 i) (< i %s)) (= (select (select %s %s) i) (select (select %s %s) i))))", n.T, cur, a.Comp["#arr"].T, cur, b.Comp["#arr"].T))
 		}
 		return boolV(and(conj...))
+	case "litContains":
+		// litContains(x, "sub"): x is a string LITERAL of the verified source (e.g. a format string at a call site) and
+		// contains sub - decided on the literal's text at generation time; false for anything that is not a literal
+		if len(x.Args) != 2 {
+			return ev.errorf(x.Pos(), "litContains(x, \"sub\")")
+		}
+		v := ev.expr(x.Args[0])
+		bl, ok := ast.Unparen(x.Args[1]).(*ast.BasicLit)
+		if !ok || bl.Kind != token.STRING {
+			return ev.errorf(x.Pos(), "litContains: second argument must be a string literal")
+		}
+		sub, err := strconv.Unquote(bl.Value)
+		if err != nil {
+			return ev.errorf(x.Pos(), "litContains: bad literal")
+		}
+		for text, sym := range u.strLits {
+			if sym == v.T {
+				if strings.Contains(text, sub) {
+					return boolV("true")
+				}
+				return boolV("false")
+			}
+		}
+		return boolV("false")
 	case "typeIs":
 		// typeIs(x, T): the dynamic type of the object x refers to is T (known for objects allocated by composite
 		// literals / new in verified code; otherwise unconstrained)
